@@ -61,7 +61,8 @@ def ensure_facts(tier, repo=None, want_ast=True):
         ents = [os.path.join(CACHE, d) for d in os.listdir(CACHE) if not d.startswith(".")]
         ents.sort(key=lambda p: os.path.getmtime(p), reverse=True)
         os.utime(base, None)
-        for old in [e for e in ents if e != base][1:]:
+        keep = int(os.environ.get("VERIF_CACHE_KEEP", "2") or 2)       # selftest/seedmatrix run many trees side by side
+        for old in [e for e in ents if e != base][max(keep - 1, 1):]:
             shutil.rmtree(old, ignore_errors=True)
         return mir, ast
     finally:
